@@ -123,6 +123,32 @@ def _svg_norm(s):
     return _NUM.sub(lambda m: '%.6g' % float(m.group(0)), s)
 
 
+def _svg_close(ex, ey, tol):
+    """element by element up to `tol` on every number (the drawing rounds coordinates to pixels: a layout computed
+    inside the call turns round-off into a difference of one pixel) — each element of one drawing is matched with an
+    unused element of the other that has the same text and numbers within `tol`"""
+    if len(ex) != len(ey):
+        return False
+    split = lambda e: (_NUM.sub('#', e), [float(v) for v in _NUM.findall(e)])
+    pool = {}
+    for e in ey:
+        t, nums = split(e)
+        pool.setdefault(t, []).append(nums)
+    for e in ex:
+        t, nums = split(e)
+        cands = pool.get(t, [])
+        best = None
+        for k, other in enumerate(cands):
+            if len(other) == len(nums) and all(abs(a - b) <= tol for a, b in zip(nums, other)):
+                d = sum(abs(a - b) for a, b in zip(nums, other))
+                if best is None or d < best[0]:
+                    best = (d, k)
+        if best is None:
+            return False
+        cands.pop(best[1])
+    return True
+
+
 def same_upto_sign(x, y, tol):
     """columns equal up to one sign each (eigen / singular vectors)"""
     x, y = np.asarray(x, dtype=float), np.asarray(y, dtype=float)
@@ -164,7 +190,9 @@ def same_output(x, y, tol, sign_free=False, degenerate=False):
         # the same elements, whatever the order the stored edges were visited in
         ex = sorted(_ELEM.findall(_svg_norm(x)))
         ey = sorted(_ELEM.findall(_svg_norm(y)))
-        return ex == ey
+        if ex == ey or tol <= 0:
+            return ex == ey
+        return _svg_close(ex, ey, tol)
     if x is None or y is None:
         return x is None and y is None
     if sparse.issparse(x) or sparse.issparse(y):
